@@ -189,6 +189,15 @@ def filterRows (rows : List Row) (preds : List Expr) : List Row :=
 
 def nullRow (uids : List Uid) : Row := uids.map (fun u => (u, Val.null))
 
+/-- the name of a column after `rename(m)` -/
+def renameName (m : List (String × String)) (n : String) : String :=
+  match m.find? (·.1 == n) with | some (_, nn) => nn | none => n
+
+/-- a row of a table with visible columns `tvis`, re-keyed to the left table's visible columns `lvis`
+    *by name* (union) -/
+def projTo (lvis tvis : List (String × Uid)) (row : Row) : Row :=
+  lvis.map (fun e => (e.2, match tvis.find? (·.1 == e.1) with | some (_, u) => row.get u | none => .null))
+
 /-- `Spec.run`: the documented meaning of a verb tree on a database -/
 def run (db : DB) : Ast → STbl
   | .source _ name cols _ =>
@@ -208,7 +217,7 @@ def run (db : DB) : Ast → STbl
       { t with visible := cols.filterMap (fun cu => (t.visible.find? (·.2 == cu.1))) }
   | .rename _ c m =>
       let t := run db c
-      { t with visible := t.visible.map (fun e => (match m.find? (·.1 == e.1) with | some (_, nn) => nn | none => e.1, e.2)) }
+      { t with visible := t.visible.map (fun e => (renameName m e.1, e.2)) }
   | .mutate _ c names vals uuids _ =>
       let t := run db c
       -- every expression sees the table as it was before the call
@@ -258,9 +267,7 @@ def run (db : DB) : Ast → STbl
       let lt := run db c
       let rt := run db r
       -- rows are matched by column *name*; only the visible columns survive
-      let proj (t : STbl) (row : Row) : Row :=
-        lt.visible.map (fun e => (e.2, match t.visible.find? (·.1 == e.1) with | some (_, u) => row.get u | none => .null))
-      let all := lt.rows.map (proj lt) ++ rt.rows.map (proj rt)
+      let all := lt.rows.map (projTo lt.visible lt.visible) ++ rt.rows.map (projTo lt.visible rt.visible)
       { rows := if distinct then all.eraseDups else all, visible := lt.visible, group := [] }
 
 /-- the exported frame: visible columns in order -/
